@@ -6,6 +6,8 @@ import (
 	"fmt"
 	"sort"
 	"strings"
+	"sync"
+	"sync/atomic"
 	"testing"
 	"time"
 
@@ -1398,6 +1400,311 @@ func TestC11FailedBuild(t *testing.T) {
 				}
 				rt.Fatalf("VIOLATION %s\n%s", f, canon)
 			}
+		}
+	})
+}
+
+// ---------- C12: the provider's root scope closed through its handle ----------
+
+// TestC12RootHandle: the provider's own root scope is reachable as a Scope
+// (Get(Scope) on the provider; what singletons are injected with). Somebody
+// who holds it may close it - while, or before, the provider is closed. The
+// provider's Close covers that scope: it reports what failed in it when the
+// failure happened during the call, and nothing is closed twice.
+func TestC12RootHandle(t *testing.T) {
+	col := evid.New("C12", "root-scope-handle", "configurations biased to disposable services, a generated subset of registrations failing in Close(); scoped and transient services are resolved on the provider (owned by its root scope); then Close is called on the root scope obtained through provider.Get(Scope) and on the provider - one after the other, or overlapped: the root scope's Close is parked inside the first instance's Close(), the provider's Close is started and left to run until it returns or blocks, the root scope's Close is released; oracle per call (10 s bound): no hang, no panic; a call returns a DisposalError exactly when a failing Close() of something it covers ran between its start and its return; every instance closed exactly once; non-trivial = a failing instance owned by the root scope was closed while both calls were in progress")
+	defer col.Flush()
+	rapid.Check(t, func(rt *rapid.T) {
+		cfg := kit.GenConfig(rt, dispOpts())
+		x, err := startRunWith(cfg, nil, func(w *kit.World) {
+			w.CloseFailRegs = map[int]bool{}
+			for _, r := range w.Cfg.Regs {
+				if r.Form != kit.FormInstance && rapid.IntRange(0, 2).Draw(rt, "closeFails") == 0 {
+					w.CloseFailRegs[r.ID] = true
+				}
+			}
+		})
+		if err != nil {
+			rt.Fatal(err)
+		}
+		if x.Build.Err != nil || x.Build.Panic != nil {
+			col.Case(false, cfg.String(), nil, "build-failed(not judged here)")
+			return
+		}
+		for _, id := range noVoid(identPool(x.M, false)) {
+			if rapid.IntRange(0, 2).Draw(rt, "resolveOnRoot") != 0 {
+				x.R.Resolve(0, id)
+			}
+		}
+		v, gerr := x.R.P.Get(kit.ScopeType)
+		root, ok := v.(godi.Scope)
+		if gerr != nil || !ok {
+			rt.Fatalf("VIOLATION C12/root-handle [get]: provider.Get(Scope) = %T, %v", v, gerr)
+		}
+		overlapped := rapid.Bool().Draw(rt, "overlapped")
+		type call struct {
+			what       string
+			from, to   int64
+			err        error
+			pv         any
+			done       chan struct{}
+			hung       bool
+			wasBlocked bool
+		}
+		start := func(what string, fn func() error) *call {
+			c := &call{what: what, done: make(chan struct{}), from: x.W.NextSeq()}
+			go func() {
+				defer close(c.done)
+				defer func() { c.pv = recover(); c.to = x.W.NextSeq() }()
+				c.err = fn()
+			}()
+			return c
+		}
+		var a, b *call
+		if overlapped {
+			var aGoid atomic.Int64
+			pk := kit.NewParker(func(gp kit.GatePoint) bool {
+				return gp.Kind == kit.GateCloseEnter && gp.Goid == aGoid.Load() && aGoid.Load() != 0
+			})
+			x.W.SetGate(pk.Gate)
+			a = &call{what: "Close of the root scope handle", done: make(chan struct{}), from: x.W.NextSeq()}
+			go func() {
+				defer close(a.done)
+				defer func() { a.pv = recover(); a.to = x.W.NextSeq() }()
+				aGoid.Store(kit.Goid())
+				a.err = root.Close()
+			}()
+			select {
+			case <-pk.Parked():
+			case <-a.done:
+			case <-time.After(10 * time.Second):
+				a.hung = true
+			}
+			b = start("Close of the provider", x.R.P.Close)
+			select {
+			case <-b.done:
+			case <-time.After(30 * time.Millisecond):
+				b.wasBlocked = true
+			}
+			pk.Release()
+			x.W.SetGate(nil)
+			for _, c := range []*call{a, b} {
+				if !kit.WaitOrTimeout(c.done, 10*time.Second) {
+					c.hung = true
+				}
+			}
+		} else {
+			first, second := "root", "provider"
+			if rapid.Bool().Draw(rt, "providerFirst") {
+				first, second = second, first
+			}
+			mk := func(w string) *call {
+				var c *call
+				if w == "root" {
+					c = start("Close of the root scope handle", root.Close)
+				} else {
+					c = start("Close of the provider", x.R.P.Close)
+				}
+				if !kit.WaitOrTimeout(c.done, 10*time.Second) {
+					c.hung = true
+				}
+				return c
+			}
+			a = mk(first)
+			b = mk(second)
+		}
+		x.R.PClosed = true
+		canon := fmt.Sprintf("%s\nclose methods that fail: %v; resolved on the provider: %d operations; overlapped=%v (first call: %s)", x.describe(), kit.SortedInts(keysOf(x.W.CloseFailRegs)), len(x.R.Obs)-1, overlapped, a.what)
+		var f *Failure
+		nt := false
+		for _, c := range []*call{a, b} {
+			switch {
+			case f != nil:
+			case c.hung:
+				f = fail("C12", "no-hang", "root-handle", "%s has not returned after 10 s", c.what)
+			case c.pv != nil:
+				f = fail("C12", "no-panic", "root-handle", "%s panicked: %v", c.what, c.pv)
+			}
+		}
+		if f == nil {
+			// which failing Close() calls ran inside which call's window
+			for _, c := range []*call{a, b} {
+				ran, ranRootOwned := 0, 0
+				for _, e := range x.W.AllEntries() {
+					if e.Inv == nil || !x.W.CloseFailRegs[e.Reg] {
+						continue
+					}
+					for _, seq := range e.CloseSeqs() {
+						if seq > c.from && seq < c.to {
+							// the root scope's Close covers what the root scope owns; the provider's covers everything
+							if c.what == "Close of the provider" || (e.ScopeTag == 0 && x.M.Regs[e.Reg].Life != kit.Singleton) {
+								ran++
+							}
+							if e.ScopeTag == 0 && x.M.Regs[e.Reg].Life != kit.Singleton {
+								ranRootOwned++
+							}
+						}
+					}
+				}
+				if overlapped && c == b && ranRootOwned > 0 {
+					nt = true
+				}
+				var de *godi.DisposalError
+				isDE := c.err != nil && errors.As(c.err, &de)
+				switch {
+				case ran > 0 && c.err == nil:
+					f = fail("C12", "reports", "root-handle/swallowed", "%d failing Close() calls of instances it covers ran during %s, yet it returned nil", ran, c.what)
+				case ran == 0 && c.err != nil:
+					f = fail("C12", "reports", "root-handle/spurious", "%s returned %v although no failing Close() of anything it covers ran during it", c.what, firstLine(c.err))
+				case c.err != nil && !isDE:
+					f = fail("C12", "reports", "root-handle/type", "%s returned %T, want a DisposalError", c.what, c.err)
+				}
+				if f != nil {
+					break
+				}
+			}
+		}
+		if f == nil {
+			for _, e := range x.W.AllEntries() {
+				if e.Inv != nil && e.Inv.Outcome == 1 && kit.IsDisposable(e.Impl) && e.CloseCount() != 1 {
+					f = fail("C12", "idempotent", "root-handle/close-count", "%v received %d Close calls after the root scope and the provider were closed, want 1", e, e.CloseCount())
+					break
+				}
+			}
+		}
+		col.Case(nt, canon, canon, fmt.Sprintf("overlapped=%v", overlapped), fmt.Sprintf("provider-blocked=%v", b.wasBlocked))
+		if f != nil {
+			if isKnown(f) {
+				col.Excluded()
+				return
+			}
+			rt.Fatalf("VIOLATION %s\n%s", f, canon)
+		}
+	})
+}
+
+// ---------- C12: Close called again from inside a Close ----------
+
+// TestC12Reentrant: an instance whose Close() closes the scope it lives in (a
+// session that ends its own request scope, an application object whose Close
+// shuts the provider down) calls Close again while the first call is still on
+// the stack: "calling Close again returns nil and closes nothing a second
+// time" - the call returns; it cannot wait for the Close it is part of.
+func TestC12Reentrant(t *testing.T) {
+	col := evid.New("C12", "close-from-inside-close", "configurations biased to disposable services in which the Close methods of a generated subset of registrations call Close on the scope that owns the instance (the provider for singletons) or on the provider; sequential histories without closes, then every scope (in a generated order) and the provider are closed by the harness, each call bounded by 10 s; oracle: every call - the harness's and the ones made from inside a Close method - returns (no hang) without panicking; a call made from inside a Close method on the scope or provider whose disposal is running that method returns nil; in the end every instance has received exactly one Close call; non-trivial = a Close method that calls Close ran")
+	defer col.Flush()
+	rapid.Check(t, func(rt *rapid.T) {
+		cfg := kit.GenConfig(rt, dispOpts())
+		mode := map[int]int{}
+		x, err := startRunWith(cfg, nil, func(w *kit.World) {
+			for _, r := range w.Cfg.Regs {
+				if r.Form != kit.FormInstance && rapid.IntRange(0, 2).Draw(rt, "closes") == 0 {
+					mode[r.ID] = rapid.IntRange(1, 2).Draw(rt, "what") // 1 its own scope, 2 the provider
+				}
+			}
+		})
+		if err != nil {
+			rt.Fatal(err)
+		}
+		if x.Build.Err != nil || x.Build.Panic != nil {
+			col.Case(false, cfg.String(), nil, "build-failed(not judged here)")
+			return
+		}
+		var mu sync.Mutex
+		var inner []string
+		var innerFail *Failure
+		ran := false
+		closing := map[int64]map[int]bool{} // goroutine -> tags (0 = provider) whose Close the harness issued on it and that are still running
+		x.W.InClose = func(e *kit.Entry) {
+			m := mode[e.Reg]
+			if m == 0 || e.Inv == nil {
+				return
+			}
+			tag := e.ScopeTag
+			if m == 2 || x.M.Regs[e.Reg].Life == kit.Singleton {
+				tag = 0
+			}
+			g := kit.Goid()
+			mu.Lock()
+			ran = true
+			reentrant := closing[g][tag]
+			mu.Unlock()
+			var cerr error
+			if tag == 0 {
+				cerr = x.R.P.Close()
+			} else if rec := x.R.ScopeRecOf(tag); rec != nil && rec.S != nil {
+				cerr = rec.S.Close()
+			}
+			mu.Lock()
+			inner = append(inner, fmt.Sprintf("Close() of %v called Close on s%d", e, tag))
+			if reentrant && cerr != nil && innerFail == nil {
+				innerFail = fail("C12", "idempotent", "reentrant-error", "Close() of %v called Close on s%d (0 = the provider), whose Close is running this very method; the call returned %v, want nil", e, tag, firstLine(cerr))
+			}
+			mu.Unlock()
+		}
+		x.genHistory(rt, histOpts{MaxSteps: 14, MaxDepth: 3, CtxKinds: []int{0, 1}, NoCollEdits: true, NoRebuild: true, NoProvClose: true})
+		var f *Failure
+		outer := func(tag int, what string, fn func() error) {
+			if f != nil {
+				return
+			}
+			done := make(chan struct{})
+			var pv any
+			go func() {
+				defer close(done)
+				defer func() { pv = recover() }()
+				g := kit.Goid()
+				mu.Lock()
+				if closing[g] == nil {
+					closing[g] = map[int]bool{}
+				}
+				closing[g][tag] = true
+				mu.Unlock()
+				_ = fn()
+				mu.Lock()
+				delete(closing[g], tag)
+				mu.Unlock()
+			}()
+			switch {
+			case !kit.WaitOrTimeout(done, 10*time.Second):
+				f = fail("C12", "no-hang", "close-from-inside-close", "Close of %s has not returned after 10 s; Close methods that had called Close so far: %v", what, inner)
+			case pv != nil:
+				f = fail("C12", "no-panic", "close-from-inside-close", "Close of %s panicked: %v", what, pv)
+			}
+		}
+		tags := x.R.Tags()
+		order := rapid.Permutation(tags).Draw(rt, "closeOrder")
+		for _, tag := range order {
+			rec := x.R.ScopeRecOf(tag)
+			if tag == 0 || rec == nil || !rec.Created || rec.S == nil || rapid.IntRange(0, 3).Draw(rt, "leaveToOwner") == 0 {
+				continue
+			}
+			outer(tag, fmt.Sprintf("scope s%d", tag), rec.S.Close)
+		}
+		outer(0, "the provider", x.R.P.Close)
+		x.R.PClosed = true
+		x.W.InClose = nil
+		canon := fmt.Sprintf("%s\nclose methods that call Close (1 = on their own scope, 2 = on the provider): %v; close order %v", x.describe(), mode, order)
+		mu.Lock()
+		if f == nil {
+			f = innerFail
+		}
+		mu.Unlock()
+		if f == nil {
+			for _, e := range x.W.AllEntries() {
+				if e.Inv != nil && e.Inv.Outcome == 1 && kit.IsDisposable(e.Impl) && e.CloseCount() != 1 {
+					f = fail("C12", "idempotent", "close-from-inside-close/close-count", "%v received %d Close calls after everything was closed, want 1", e, e.CloseCount())
+					break
+				}
+			}
+		}
+		col.Case(ran, canon, canon)
+		if f != nil {
+			if isKnown(f) {
+				col.Excluded()
+				return
+			}
+			rt.Fatalf("VIOLATION %s\n%s", f, canon)
 		}
 	})
 }
